@@ -98,13 +98,13 @@ func checkRegistry(r *vcore.Run) {
 // ---------------------------------------------------------------- topologies
 
 func genTopologies(r *vcore.Run) []*topo {
-	n := r.Pick(40, 260)
+	n := r.Pick(30, 240)
 	sizes := []int{2, 4, 8, 2, 16, 4, 1, 8, 2, 4, 32, 2, 8, 4, 64, 2, 4, 8, 16, 4}
-	var out []*topo
+	out := fixedTopologies()
 	for i := 0; i < n; i++ {
 		rng := r.Rand(fmt.Sprintf("topo/%d", i))
 		N := sizes[i%len(sizes)]
-		maxDepth := 1 + (i/2)%6
+		maxDepth := 1 + i%6
 		pat := depPatterns[rng.IntN(len(depPatterns))]
 		t := genTopo(rng, fmt.Sprintf("t%d", i), N, maxDepth, pat)
 		switch {
@@ -122,6 +122,42 @@ func genTopologies(r *vcore.Run) []*topo {
 		out = append(out, t)
 	}
 	return out
+}
+
+// fixedTopologies are hand-written shapes run at every seed: the minimal forms
+// of the dependency / size patterns that matter (non-involutive instance order,
+// dependencies on two input wires at different instances, the same variable in
+// both halves of a wire's assignment, a single instance, gnark's own Merkle
+// benchmark shape).
+func fixedTopologies() []*topo {
+	in := wireSpec{Op: "in"}
+	mulXY := []wireSpec{in, in, {Op: "mul", In: []int{0, 1}}}
+	ts := []*topo{
+		{Name: "fixed/three-cycle-instance-order", N: 4, Wires: mulXY, Hash: "mimc", Chal: "commit", DepPattern: "single",
+			Deps: []depSpec{{InWire: 0, OutWire: 2, InInst: 0, OutInst: 2}}},
+		{Name: "fixed/deps-on-two-input-wires", N: 4, Wires: mulXY, Hash: "mimc", Chal: "commit", DepPattern: "dag",
+			Deps: []depSpec{{InWire: 0, OutWire: 2, InInst: 1, OutInst: 0}, {InWire: 1, OutWire: 2, InInst: 3, OutInst: 2}}},
+		{Name: "fixed/single-instance", N: 1, Wires: mulXY, Hash: "mimc", Chal: "commit", DepPattern: "none"},
+		{Name: "fixed/single-instance-fan-out", N: 1, Hash: "mimc", Chal: "commit", DepPattern: "none",
+			Wires: []wireSpec{in, {Op: "mul", In: []int{0, 0}}, {Op: "add", In: []int{1, 0}}, {Op: "mul", In: []int{1, 2}}}},
+		{Name: "fixed/reverse-chain", N: 8, Wires: mulXY, Hash: "mimc", Chal: "commit", DepPattern: "chain-rev"},
+		{Name: "fixed/merkle", N: 8, Wires: []wireSpec{in, in, {Op: "c19_fma", In: []int{0, 1, 1}}}, Hash: "mimc", Chal: "commit", DepPattern: "tree",
+			Deps: []depSpec{{0, 2, 4, 3}, {1, 2, 4, 2}, {0, 2, 5, 1}, {1, 2, 5, 0}, {0, 2, 6, 5}, {1, 2, 6, 4}}},
+	}
+	for i := 7; i > 0; i-- {
+		ts[4].Deps = append(ts[4].Deps, depSpec{InWire: 0, OutWire: 2, InInst: i - 1, OutInst: i})
+	}
+	// one variable bound to 15 of the 16 instances of an input wire, constant test hash
+	same := &topo{Name: "fixed/same-variable-in-both-halves/constant-hash", N: 16, Hash: "c19-const-1", Chal: "none", DepPattern: "star",
+		Wires: []wireSpec{in, in, {Op: "mul", In: []int{1, 1}}, {Op: "neg", In: []int{0}}}}
+	same2 := &topo{Name: "fixed/same-variable-in-both-halves/mimc", N: 16, Hash: "mimc", Chal: "commit", DepPattern: "star", Wires: same.Wires}
+	for i := 0; i < 16; i++ {
+		if i != 14 {
+			same.Deps = append(same.Deps, depSpec{InWire: 1, OutWire: 3, InInst: i, OutInst: 14})
+			same2.Deps = append(same2.Deps, depSpec{InWire: 1, OutWire: 3, InInst: i, OutInst: 14})
+		}
+	}
+	return append(ts, same, same2)
 }
 
 func (t *topo) usesCustom() bool {
@@ -235,8 +271,8 @@ func runTopoOnCurve(r *vcore.Run, t *topo, k *curveKit) {
 				r.Count("hang.predicted-by-probe", 1)
 				vals := genValues(r.Rand("hang/"+key), k.mod, len(cA.Vals), "small")
 				note := "not re-run in a child process (confirmed earlier in this run)"
-				switch hangState.Load() {
-				case 0:
+				switch {
+				case t.N <= 8:
 					if hangState.CompareAndSwap(0, 3) {
 						confirmed, n := confirmHang(r, t, k, b, vals)
 						note = n
@@ -288,9 +324,9 @@ func runTopoOnCurve(r *vcore.Run, t *topo, k *curveKit) {
 				rng := r.Rand(fmt.Sprintf("advvals/%s/%s/%d", t.Name, k.name, vi))
 				vals = genValues(rng, k.mod, len(cA.Vals), "mixed")
 			}
-			big := ccsB.GetNbConstraints() > 40000
+			big := ccsB.GetNbConstraints() > r.Pick(12000, 40000)
 			for li := range lies {
-				if big && li != 0 && (li+len(t.Wires))%3 != 0 {
+				if big && lies[li].class != "control" && (li+len(t.Wires))%3 != 0 {
 					r.Count("adv.lies-not-run-on-large-system", 1)
 					continue
 				}
@@ -325,6 +361,9 @@ func honestCase(r *vcore.Run, t *topo, k *curveKit, b, key, mode string, ccsA, c
 	case errB != nil:
 		r.Count("honest.rejected", 1)
 		sig := "honest/gkr-verification-rejects-honest-prover"
+		if t.Hash != "mimc" {
+			sig += ":constant-challenge-hash"
+		}
 		if panB {
 			sig = "honest/solve-panics"
 		}
@@ -358,6 +397,9 @@ func honestCase(r *vcore.Run, t *topo, k *curveKit, b, key, mode string, ccsA, c
 	}
 	tapA := takeTap(nonceA)
 	switch {
+	case errA != nil && errB != nil:
+		// already reported for the circuit without assertions
+		r.Count("honest.asserting-circuit-rejected-like-plain-circuit", 1)
 	case errA == nil:
 		r.Count("honest.solves-accepted", 1)
 		r.Count("honest.asserting-circuit-accepted", 1)
@@ -372,6 +414,9 @@ func honestCase(r *vcore.Run, t *topo, k *curveKit, b, key, mode string, ccsA, c
 		r.Count("honest.asserting-circuit-rejected-consistently-with-wrong-export", 1)
 	default:
 		sig := "honest/asserting-circuit-rejects-honest-prover"
+		if t.Hash != "mimc" {
+			sig += ":constant-challenge-hash"
+		}
 		if panA {
 			sig = "honest/solve-panics"
 		}
@@ -423,6 +468,13 @@ func advCase(r *vcore.Run, t *topo, k *curveKit, b, key string, priv constraint.
 			r.Violation("adv/control-rejected:honest-hints-through-redirect", short(err), rep())
 		} else {
 			r.Count("adv.control-accepted", 1)
+			if h.OwnProof {
+				if changedProof {
+					r.Inconclusive("the adversary's own prover does not reproduce the genuine proof")
+				} else {
+					r.Count("adv.own-prover-reproduces-genuine-proof", 1)
+				}
+			}
 		}
 	case !deviated:
 		r.Count("adv.noop."+l.name, 1)
